@@ -39,8 +39,17 @@ def alphabet(M):
     return ops
 
 
+# machine naming of the worlds built by this process (set before a BFS; the
+# forked workers inherit it): None = m0.., "case" = distinct ids that differ
+# only in letter case / surrounding blanks
+ID_STYLE = None
+CASE_IDS = ["node_a", "node_A", "node_b", " node_b", "NODE_A"]
+
+
 def _cfg_path(M):
     cfg = mkcfg([[1, 1]] * M, [mkobs("z", 0, 1, 1, 1, 1, "wz")])
+    if ID_STYLE == "case":
+        cfg["mids"] = CASE_IDS[:M]
     return world.materialise(mkcase(cfg, {"wz": dag("single", [1])}))
 
 
